@@ -38,6 +38,7 @@ fn run_case(rep: &mut Report, args: &Args, cs: u64, sink_kind: &str) {
     // ---- build the sink ----
     enum Obs {
         Spy(crossbeam_channel::Receiver<Vec<u8>>),
+        QueueSpy(crossbeam_channel::Receiver<Vec<u8>>),
         Unix { rx_thread: std::thread::JoinHandle<Vec<Vec<u8>>>, stop: Arc<std::sync::atomic::AtomicBool>, dir: std::path::PathBuf },
         Udp { fd_marker: u64, _recv: std::net::UdpSocket },
     }
@@ -45,6 +46,12 @@ fn run_case(rep: &mut Report, args: &Args, cs: u64, sink_kind: &str) {
         "spy" => {
             let (rx, sink) = if default_cap { BufferedSpyMetricSink::new() } else { BufferedSpyMetricSink::with_capacity(None, Some(cap)) };
             (StatsdClient::from_sink("", sink), Obs::Spy(rx))
+        }
+        "queue-spy" => {
+            // the recommended production shape: a queuing sink in front of the buffered sink (unbounded queue: every
+            // emit is acknowledged); emit and flush race with the background thread
+            let (rx, sink) = if default_cap { BufferedSpyMetricSink::new() } else { BufferedSpyMetricSink::with_capacity(None, Some(cap)) };
+            (StatsdClient::from_sink("", cadence::QueuingMetricSink::from(sink)), Obs::QueueSpy(rx))
         }
         "unix" => {
             let dir = std::path::PathBuf::from(format!("/var/tmp/cvh-conc-{}-{}", std::process::id(), cs));
@@ -144,6 +151,24 @@ fn run_case(rep: &mut Report, args: &Args, cs: u64, sink_kind: &str) {
     // ---- collect the datagram stream ----
     let stream: Vec<Vec<u8>> = match obs {
         Obs::Spy(rx) => rx.try_iter().collect(),
+        Obs::QueueSpy(rx) => {
+            // the queue drains asynchronously after the client is gone; the channel disconnects when the wrapped sink is released
+            let mut got = Vec::new();
+            let t0 = std::time::Instant::now();
+            loop {
+                match rx.recv_timeout(std::time::Duration::from_millis(200)) {
+                    Ok(b) => got.push(b),
+                    Err(crossbeam_channel::RecvTimeoutError::Disconnected) => break,
+                    Err(crossbeam_channel::RecvTimeoutError::Timeout) => {
+                        if t0.elapsed().as_secs() > 60 {
+                            rep.inconclusive("queue-spy: the wrapped sink was not released within 60 s");
+                            return;
+                        }
+                    }
+                }
+            }
+            got
+        }
         Obs::Unix { rx_thread, stop, dir } => {
             std::thread::sleep(std::time::Duration::from_millis(30));
             stop.store(true, std::sync::atomic::Ordering::SeqCst);
